@@ -89,7 +89,6 @@ impl Peer {
         };
         match refcodec::decode(&frame) {
             Ok(m) => {
-                self.received.push(m.clone());
                 if matches!(m, Msg::Data { .. }) {
                     match self.next_frame().await {
                         Some(Ok(p)) => PeerRecv::Msg(m, Some(p)),
